@@ -1,11 +1,11 @@
 #!/bin/bash
-# tools/confirm_seed.sh <ID> <variant> <pkgdir> <run-regex> [demo-file-name]
+# tools/confirm_seed.sh <ID> <variant> <pkgdir> <run-regex> [demo-file-name]   (SEEDROOT=/tmp/seed2 for round 2)
 # Confirms a seeded change in the scratch worktree /tmp/seed/<ID> (reset to /repo HEAD):
 #  suite passes with the patch; demo fails with it and passes without it.
 set -u
 export GOFLAGS=-mod=mod GOPROXY=off GOSUMDB=off GOTOOLCHAIN=local
 ID=$1; V=$2; PKG=$3; RUN=$4; NAME=${5:-zz_seed_demo_test.go}
-W=/tmp/seed/$ID; O=$W/_out/$V
+W=${SEEDROOT:-/tmp/seed}/$ID; O=$W/_out/$V
 cd $W || exit 2
 git checkout -q -- . ; git checkout -q --detach $(git -C /repo rev-parse HEAD) || exit 2
 if ! git apply "$O/patch.diff"; then echo "CONFIRM: patch does not apply to current HEAD"; exit 3; fi
